@@ -17,6 +17,29 @@ OTHER = ("[Song]\n{\n  Resolution = 480\n  Name = \"other\"\n}\n[SyncTrack]\n{\n
          "[ExpertSingle]\n{\n  0 = N 0 0\n  0 = N 1 0\n  0 = N 2 700\n  160 = N 4 0\n  160 = N 5 0\n  320 = N 7 0\n  320 = N 6 0\n  320 = S 2 100\n}\n")
 
 
+RICH = ("[Song]\n{\n  Name = \"rich\"\n  Resolution = 192\n  Offset = 0\n  Player2 = bass\n  Difficulty = 3\n}\n"
+        "[SyncTrack]\n{\n  0 = TS 4\n  0 = B 120000\n  0 = A 0\n  768 = B 150000\n  768 = A 1600000\n  1536 = TS 3 3\n}\n"
+        "[Events]\n{\n  0 = E \"section Intro\"\n  384 = E \"phrase_start\"\n  384 = E \"lyric Hel-\"\n  480 = E \"lyric lo\"\n  768 = E \"section Verse 1\"\n  900 = E \"phrase_end\"\n}\n"
+        "[ExpertSingle]\n{\n  192 = N 0 0\n  256 = N 1 0\n  384 = N 2 96\n  384 = N 3 192\n  384 = S 2 384\n  480 = N 1 0\n  480 = N 5 0\n  500 = E soloing\n  576 = N 7 0\n  600 = N 6 0\n  600 = N 4 10\n  700 = E soloend\n}\n"
+        "[HardDoubleBass]\n{\n  0 = N 0 0\n  96 = S 2 96\n  96 = N 1 0\n}\n")
+
+
+def _stress(kind_lines, section):
+    """a chart dominated by one kind of line (history scripts: any memo keyed on what was seen
+    before gets a different state from each of these)"""
+    body = {"SyncTrack": "  0 = TS 4\n  0 = B 120000\n", "Events": "", "ExpertSingle": ""}
+    body[section] += "".join("  %d = %s\n" % (10 * (i + 1), kind_lines) for i in range(12))
+    return ("[Song]\n{\n  Resolution = 192\n}\n[SyncTrack]\n{\n" + body["SyncTrack"] + "}\n[Events]\n{\n" + body["Events"] + "}\n"
+            "[ExpertSingle]\n{\n" + body["ExpertSingle"] + "}\n")
+
+
+STRESS = [("text-heavy", _stress('E "crowd_clap"', "Events")), ("lyric-heavy", _stress('E "lyric la"', "Events")),
+          ("section-heavy", _stress('E "section s"', "Events")), ("ts-heavy", _stress("TS 3", "SyncTrack")),
+          ("anchor-heavy", _stress("A 100", "SyncTrack")), ("bpm-heavy", _stress("B 100000", "SyncTrack")),
+          ("starpower-heavy", _stress("S 2 5", "ExpertSingle")), ("trackevent-heavy", _stress("E solo", "ExpertSingle")),
+          ("note-heavy", _stress("N 1 0", "ExpertSingle")), ("garbage-heavy", _stress("X nothing", "Events"))]
+
+
 def observe(chart):
     """a full observation of a chart: every dataclass field of every event/track, str and repr"""
     import dataclasses
@@ -81,7 +104,16 @@ print(json.dumps(repr(observe(cc.Chart.from_file(io.StringIO(sys.stdin.read())))
 def history_independence():
     import chartparse.chart as cc
     from chartparse.instrument import Instrument, Difficulty
-    A = CHART_TEXTS[0]
+    for A in (RICH, CHART_TEXTS[0]):
+        f = _history_independence(A)
+        if f:
+            return f
+    return None
+
+
+def _history_independence(A):
+    import chartparse.chart as cc
+    from chartparse.instrument import Instrument, Difficulty
     repo = os.environ.get("CHARTPARSE_REPO", "/repo")
     here = os.path.dirname(os.path.dirname(os.path.abspath(__file__)))
     env = dict(os.environ, PYTHONPATH=os.pathsep.join([here, repo]))
@@ -89,8 +121,9 @@ def history_independence():
     fresh = json.loads(out.stdout.strip().splitlines()[-1]) if out.returncode == 0 and out.stdout.strip() else None
     first = repr(observe(cc.Chart.from_file(io.StringIO(A))))
     steps = ["parse A"]
-    for label, text, kw in (("parse B", OTHER, {}), ("parse A restricted", A, {"want_tracks": [(Instrument.GUITAR, Difficulty.HARD)]}),
-                            ("parse failing C", BAD_TEXT, {}), ("parse B again", OTHER, {}), ("parse CHART 2", CHART_TEXTS[1], {})):
+    for label, text, kw in ((("parse B", OTHER, {}), ("parse A restricted", A, {"want_tracks": [(Instrument.GUITAR, Difficulty.HARD)]}),
+                            ("parse failing C", BAD_TEXT, {}), ("parse B again", OTHER, {}), ("parse CHART 2", CHART_TEXTS[1], {}))
+                           + tuple(("parse %s chart" % n, t, {}) for n, t in STRESS)):
         try:
             cc.Chart.from_file(io.StringIO(text), **kw)
         except Exception:
@@ -98,11 +131,11 @@ def history_independence():
         steps.append(label)
         again = repr(observe(cc.Chart.from_file(io.StringIO(A))))
         if again != first:
-            return {"history": "; ".join(steps) + "; parse A again", "observed": "the second parse of A differs from the first"}
+            return {"history": "; ".join(steps) + "; parse A again", "observed": "the second parse of A differs from the first", "chart_text": A}
         if fresh is not None and again != fresh:
-            return {"history": "; ".join(steps) + "; parse A again", "observed": "the parse of A differs from a fresh-process parse of A"}
+            return {"history": "; ".join(steps) + "; parse A again", "observed": "the parse of A differs from a fresh-process parse of A", "chart_text": A}
     if fresh is not None and first != fresh:
-        return {"history": "parse A", "observed": "first parse differs from a fresh-process parse"}
+        return {"history": "parse A", "observed": "first parse differs from a fresh-process parse", "chart_text": A}
     return None
 
 
